@@ -166,6 +166,13 @@ def jcopy(v):
 
 
 class _Stat:
+    @property
+    def st_mtime(self):
+        from .common import Unsupported
+        raise Unsupported('stat().st_mtime: floating-point timestamps are not modelled (only st_mtime_ns)')
+
+    st_atime = st_ctime = st_mtime
+
     def __init__(self, n, eng):
         if n.kind == DIR:
             self.st_mode = _stat.S_IFDIR | 0o755
